@@ -44,7 +44,7 @@ def parse_fn(t, pos):
     elif kind == "rat":
         n = int(t[pos]); d["p"] = [fl(x) for x in t[pos + 1:pos + 1 + n]]; pos += 1 + n
         n = int(t[pos]); d["q"] = [fl(x) for x in t[pos + 1:pos + 1 + n]]; pos += 1 + n
-    elif kind == "powc":
+    elif kind in ("powc", "plat"):
         d["ip"] = int(t[pos]); d["c"] = fl(t[pos + 1]); pos += 2
     elif kind == "sat":
         d["s"] = fl(t[pos]); d["c"] = fl(t[pos + 1]); pos += 2
@@ -57,6 +57,8 @@ def parse_fn(t, pos):
 
 def parse_rq(rq):
     t = rq.split()
+    if t[0] == "c02.sign":
+        return dict(op=t[0], x=fl(t[1]), y=fl(t[2]))
     d, pos = parse_fn(t, 1)
     return dict(op=t[0], fn=d, xl=fl(t[pos]), xr=fl(t[pos + 1]), acc=fl(t[pos + 2]))
 
@@ -72,7 +74,7 @@ def habs(cs, x):
     return horner([abs(Fraction(c)) for c in cs], abs(x))
 
 
-TRANSC = ("atan", "erf", "tanh", "rpow", "expm", "logx", "cosx")
+TRANSC = ("atan", "erf", "tanh", "rpow", "expm", "logx", "cosx", "gauss")
 
 
 def feval(d, x):
@@ -91,6 +93,9 @@ def feval(d, x):
             return None
         v = x ** d["ip"]
         return v - Fraction(d["c"]), abs(v) * (1 + abs(d["ip"])) + abs(Fraction(d["c"]))
+    if k == "plat":
+        v = (1 / (1 + x * x)) ** d["ip"]
+        return v - Fraction(d["c"]), v * (2 + d["ip"]) + abs(Fraction(d["c"]))
     if k == "sat":
         s, c = Fraction(d["s"]), Fraction(d["c"])
         return (x - s) / (1 + abs(x - s)) - c, (abs(x) + abs(s)) / (1 + abs(x - s)) + abs(c)
@@ -113,6 +118,8 @@ def feval(d, x):
         a = w * (X - s); v = mp.exp(a); der = abs(w) * v; arg = abs(X) + abs(s)
     elif k == "logx":
         v = w * mp.log(X / s); der = abs(w) / X; arg = abs(X)
+    elif k == "gauss":
+        a = X - s; v = mp.exp(-w * a * a); der = 2 * abs(w * a) * v; arg = (abs(X) + abs(s)) * 2 + abs(a)
     elif k == "cosx":
         a = w * (X - s); v = mp.cos(a); der = abs(w) * abs(mp.sin(a)) + abs(w) * abs(a) * mp.mpf(2) ** -50; arg = abs(X) + abs(s)
     else:
@@ -137,8 +144,8 @@ def fn_str(d):
         return "poly " + lst(d["p"])
     if k == "rat":
         return "rat %s %s" % (lst(d["p"]), lst(d["q"]))
-    if k == "powc":
-        return "powc %d %s" % (d["ip"], hx(d["c"]))
+    if k in ("powc", "plat"):
+        return "%s %d %s" % (k, d["ip"], hx(d["c"]))
     if k == "sat":
         return "sat %s %s" % (hx(d["s"]), hx(d["c"]))
     if k in ("nanle", "nange"):
@@ -147,7 +154,9 @@ def fn_str(d):
 
 
 def rq_root(d, xl, xr, acc):
-    op = "c02.fam" if d["kind"] in TRANSC else "c02.root"
+    # oracle only: transcendental kinds, and plateaus so low that f*f underflows in double (IEEE underflow is
+    # not in the exact-rational model)
+    op = "c02.fam" if d["kind"] in TRANSC or (d["kind"] == "plat" and d["c"] < 1e-140) else "c02.root"
     return "%s %s %s %s %s" % (op, fn_str(d), hx(xl), hx(xr), hx(acc))
 
 
@@ -311,6 +320,36 @@ def generate(tier, seed, ctx):
             ok = False
         if ok:
             add(d, a, b, acc_for(r0 if r0 else 1.0, b - a), "fam/" + k)
+    # 6b. tiny same-sign plateaus: the ends are ordinary, midpoint and Ridder's point are ~1e-200 of definite sign ----
+    for _ in range(70 * N):
+        deep = rng.random() < 0.6
+        dd = 10.0 ** (-rng.uniform(200, 300) if deep else -rng.uniform(60, 135))
+        if rng.random() < 0.5:
+            k = rng.choice([20, 30, 40, 60])
+            d = dict(kind="plat", ip=k, c=dd)
+            r0 = math.sqrt(dd ** (-1.0 / k) - 1)
+            a = rng.choice([0.0, 0.0, rng.uniform(0, 0.5) * r0])
+            b = r0 * rng.choice([1.4, 2.0, 3.0, 10.0 ** rng.uniform(0.2, 1.5)])
+        else:
+            w = 10.0 ** rng.uniform(-2, 2); s0 = rng.uniform(-2, 2)
+            d = dict(kind="gauss", w=w, s=s0, c=dd)
+            r0 = s0 + math.sqrt(-math.log(dd) / w)
+            a = s0 + rng.choice([0.0, rng.uniform(0, 0.5) * (r0 - s0)])
+            b = s0 + (r0 - s0) * rng.choice([1.2, 1.4, 2.0, 3.0])
+        try:
+            ok = sign_change(d, a, b)
+        except Exception:
+            ok = False
+        if ok:
+            add(d, a, b, acc_for(r0, b - a), "plateau/%s/%s" % (d["kind"], "deep" if deep else "mid"))
+    # 6c. the two-argument Sign itself, down to magnitudes whose product underflows (class A vs sign2) ----------
+    mags = [0.0, 5e-324, 1e-300, 1e-200, 1e-170, 1e-162, 1e-100, 1.0, 3.5, 1e100, 1e300]
+    vals = sorted(set([m for m in mags] + [-m for m in mags]))
+    for x in vals:
+        for y in vals:
+            rq = "c02.sign %s %s" % (hx(x), hx(y))
+            if rq not in ctx["meta"]:
+                R.append(rq); ctx["meta"][rq] = dict(fam="sign2", order="lr")
     # 7a. deterministic: an end that is a zero exactly in double (dyadic roots, exact expanded coefficients) ------
     for a in (-2.0, 0.0, 0.5, 1.25):
         for w in (0.5, 1.0, 4.0):
@@ -423,8 +462,22 @@ def oracle(q, I, ctx):
     return out
 
 
+def compare_sign(q, impl, model, ctx):
+    bump(ctx, "sign2")
+    if tag(impl) != "ok" or tag(model) != "ok":
+        return [fail("corr", "Sign(x,y): protocol", "impl=%s model=%s" % (impl[:60], model[:60]))]
+    v, m = fl(toks(impl)[0]), fr(toks(model)[0])
+    ctx["nontrivial"].add(("sign2", sgn(q["x"]), sgn(q["y"]), abs(q["x"]) < 1e-160, abs(q["y"]) < 1e-160))
+    if math.isnan(v) or Fraction(v) != m:
+        return [fail("corr", "Sign(x,y) differs from its definition (x if the signs agree, -x otherwise)",
+                     "Sign(%r,%r) = %r, model %r" % (q["x"], q["y"], v, float(m)))]
+    return []
+
+
 def compare(rq, impl, model, ctx):
     q = parse_rq(rq)
+    if q["op"] == "c02.sign":
+        return compare_sign(q, impl, model, ctx)
     meta = ctx.get("meta", {}).get(rq, dict(fam="replay", order="lr"))
     bump(ctx, meta["fam"])
     fs, both = std_outcome(rq, impl, model)
@@ -505,6 +558,8 @@ def compare(rq, impl, model, ctx):
 
 
 def oracle_only(rq, impl, ctx):
+    if rq.startswith("c02.sign"):
+        return []
     if crashed(impl):
         return [fail("prop", "crash/sanitizer/silent exit: " + tag(impl), impl[:200])]
     q = parse_rq(rq)
